@@ -34,6 +34,7 @@ type Engine struct {
 	methFC   map[string]*FuncContract
 	loadErrs []string
 	contractFiles []string
+	macroSpecs bool
 }
 
 type WriteSet struct {
@@ -163,6 +164,28 @@ func (e *Engine) bindContracts() {
 	for _, fc := range e.cs.Funcs {
 		if fc.Extern {
 			// key: [alias.]Iface.Method or Struct.field
+			parts := strings.Split(fc.Key, ".")
+			if len(parts) == 3 {
+				pp := ""
+				if m := e.cs.Imports[fc.PkgPath]; m != nil {
+					pp = m[parts[0]]
+				}
+				if pp == "" {
+					if tp := e.tpkgs[fc.PkgPath]; tp != nil {
+						for _, imp := range tp.Imports() {
+							if imp.Name() == parts[0] {
+								pp = imp.Path()
+							}
+						}
+					}
+				}
+				if pp == "" {
+					e.loadErrs = append(e.loadErrs, "extern "+fc.Key+": unknown package alias")
+					continue
+				}
+				e.methFC[pp+"::"+parts[1]+"."+parts[2]] = fc
+				continue
+			}
 			e.methFC[fc.PkgPath+"::"+fc.Key] = fc
 			continue
 		}
@@ -573,6 +596,9 @@ const preamble = `(set-logic ALL)
 (declare-fun unixsec (Int) Int)
 (declare-fun unixmilli (Int) Int)
 (declare-fun timeofunix (Int Int) Int)
+(declare-sort Fuel 0)
+(declare-fun FS (Fuel) Fuel)
+(declare-const FZ Fuel)
 (declare-const alloc0 (Array Int Bool))
 (declare-const locks0 (Array Int Int))
 (assert (= (blen 0) 0))
@@ -600,7 +626,12 @@ func (x *Exec) script(st *State, goal string) string {
 		sb.WriteString(d)
 		sb.WriteByte('\n')
 	}
+	seen := map[string]bool{}
 	for _, p := range st.pc {
+		if seen[p] {
+			continue
+		}
+		seen[p] = true
 		sb.WriteString("(assert " + p + ")\n")
 	}
 	sb.WriteString("(assert (not " + goal + "))\n(check-sat)\n")
@@ -611,7 +642,17 @@ func (x *Exec) emit(st *State, label, kind, src, goal string) {
 	if x.discovery > 0 {
 		return
 	}
-	ob := &Obligation{Name: x.fnKey + "#" + label, Func: x.fnKey, Kind: kind, Src: src, Goal: goal, PathID: x.paths}
+	if parts := splitAnd(goal); len(parts) > 1 && kind != "cover" {
+		for _, p := range parts {
+			x.emit(st, label, kind, src, p)
+			st2 := st // conjuncts already proved are available to the later ones
+			st2.pc = append(st2.pc, p)
+		}
+		// remove the temporarily assumed conjuncts again
+		st.pc = st.pc[:len(st.pc)-len(parts)]
+		return
+	}
+	ob := &Obligation{Name: x.fnKey + "#" + label, Func: x.fnKey, Kind: kind, Src: src, Goal: goal, PathID: x.paths, Trace: strings.Join(st.trace, " "), Fn: x.fn, FC: x.fc, Clause: x.curClause}
 	if goal == "true" {
 		ob.Status, ob.Solver = "unsat", "trivial"
 	} else {
@@ -704,10 +745,15 @@ func (e *Engine) VerifyFunction(fc *FuncContract) *FuncResult {
 		}
 		names := cloneNames(x.params)
 		bindResults(names, sig, results)
-		penv := &Env{x: x, st: s, old: x.entry, names: names, pkg: pkg, pkgPath: pkg.Path()}
+		penv := &Env{x: x, st: s, old: x.entry, names: names, pkg: pkg, pkgPath: pkg.Path(), proving: true, fn: fn, atBlock: s.curBlock, localsAfterNames: true}
 		for _, en := range fc.Ensures {
 			g := x.evalBool(penv, en)
+			x.curClause = en
 			x.emit(s, "post:"+en.Label, "post", en.Src, g)
+			x.curClause = nil
+		}
+		if fc.AssignsNone || len(fc.Assigns) > 0 {
+			x.frameObligations(s)
 		}
 		x.pathDone()
 	})
@@ -729,4 +775,147 @@ func pkgShort(path string) string {
 		return filepath.Base(path)
 	}
 	return p
+}
+
+// frameObligations: at a return, every heap location that differs from the entry state must be either
+// freshly allocated on this path or named by the assigns clause.
+func (x *Exec) frameObligations(st *State) {
+	type allowed struct{ base, idx string }
+	allow := map[string][]allowed{}
+	ghostOK := map[string]bool{}
+	allKeys := map[string]bool{}
+	pkg := x.fn.Pkg.Pkg
+	for _, a := range x.fc.Assigns {
+		if ce, ok := a.Expr.(*ast.CallExpr); ok && identName(ce.Fun) == "all" {
+			if k, _ := x.eng.allKey(pkg.Path(), ce); k != "" {
+				allKeys[k] = true
+			}
+			continue
+		}
+		if id, ok := a.Expr.(*ast.Ident); ok {
+			if _, isG := x.eng.cs.Ghosts[id.Name]; isG {
+				ghostOK[id.Name] = true
+				continue
+			}
+		}
+		func() {
+			defer func() {
+				if r := recover(); r != nil {
+					if _, ok := r.(evalError); !ok {
+						panic(r)
+					}
+				}
+			}()
+			env := &Env{x: x, st: st, old: x.entry, names: x.params, pkg: pkg, pkgPath: pkg.Path(), inOld: true}
+			lv := env.lvalue(a.Expr)
+			prefix, t := pathInfo(lv.P.Root, lv.P.Path)
+			kind := "F|"
+			if lv.P.Idx != "" {
+				kind = "E|"
+			}
+			for _, l := range leaves(t) {
+				k := kind + typeKey(lv.P.Root) + "|" + joinPath(prefix, l.Path)
+				allow[k] = append(allow[k], allowed{lv.P.Base, lv.P.Idx})
+			}
+		}()
+	}
+	var goals []string
+	var gkeys []string
+	for _, key := range sortedKeys(st.written) {
+		if key == "*" {
+			x.emit(st, "frame:heap", "frame", "whole heap havocked by a callee without frame", "false")
+			continue
+		}
+		if strings.HasPrefix(key, "G|") {
+			g := key[2:]
+			if strings.HasPrefix(g, "$") || ghostOK[g] {
+				continue
+			}
+			cur := st.ghost[g]
+			old := x.entry.ghost[g]
+			if cur != nil && old != nil {
+				x.emit(st, "frame:"+g, "frame", "ghost "+g+" unchanged", x.valuesEqual(st, cur, old))
+			}
+			continue
+		}
+		if key == "L|" || allKeys[key] {
+			continue
+		}
+		srt := x.arrSort[key]
+		cur := st.heap[key]
+		if cur == "" {
+			continue
+		}
+		old := x.heapArr(x.entry, key, srt)
+		if cur == old {
+			continue
+		}
+		var alts []string
+		for _, f := range st.freshRefs {
+			alts = append(alts, fmt.Sprintf("(= qr %s)", f))
+		}
+		twoLevel := strings.HasPrefix(key, "E|") || strings.HasPrefix(key, "MD|") || strings.HasPrefix(key, "MV|")
+		var goal string
+		if twoLevel {
+			for _, a := range allow[key] {
+				alts = append(alts, fmt.Sprintf("(and (= qr %s) (= qi %s))", a.base, a.idx))
+			}
+			alts = append(alts, fmt.Sprintf("(= (select (select %s qr) qi) (select (select %s qr) qi))", cur, old))
+			goal = fmt.Sprintf("(forall ((qr Int) (qi Int)) %s)", smtOr(alts))
+		} else {
+			for _, a := range allow[key] {
+				alts = append(alts, fmt.Sprintf("(= qr %s)", a.base))
+			}
+			alts = append(alts, fmt.Sprintf("(= (select %s qr) (select %s qr))", cur, old))
+			goal = fmt.Sprintf("(forall ((qr Int)) %s)", smtOr(alts))
+		}
+		goals = append(goals, goal)
+		gkeys = append(gkeys, key)
+	}
+	if len(goals) > 0 {
+		x.emit(st, "frame", "frame", "only assigned or fresh locations change: "+strings.Join(gkeys, " "), smtAnd(goals))
+	}
+}
+
+// splitAnd splits a top-level (and a b c) term into its conjuncts.
+func splitAnd(t string) []string {
+	if !strings.HasPrefix(t, "(and ") || !strings.HasSuffix(t, ")") {
+		return nil
+	}
+	body := t[5 : len(t)-1]
+	var parts []string
+	depth, start := 0, 0
+	inBar := false
+	for i := 0; i < len(body); i++ {
+		c := body[i]
+		if c == '|' {
+			inBar = !inBar
+		}
+		if inBar {
+			continue
+		}
+		switch c {
+		case '(':
+			depth++
+		case ')':
+			depth--
+			if depth < 0 {
+				return nil
+			}
+		case ' ':
+			if depth == 0 {
+				if i > start {
+					parts = append(parts, body[start:i])
+				}
+				start = i + 1
+			}
+		}
+	}
+	if depth != 0 {
+		return nil
+	}
+	if start < len(body) {
+		parts = append(parts, body[start:])
+	}
+	return parts
 }
